@@ -6,6 +6,7 @@ import copy
 import datetime
 import io
 import json
+import re
 import os
 import tempfile
 from pathlib import Path
@@ -210,7 +211,7 @@ def typed(v):
     return v, FakeCell(v, 1)
 
 
-def grids(form, rng, typed_cells, pad):
+def grids(form, rng, typed_cells, pad, interior_gap=0):
     """per sheet: (header list, row lists) with optional interior blank rows / empty columns / trailing junk"""
     out = {}
     for sheet, rows in form.items():
@@ -221,7 +222,9 @@ def grids(form, rng, typed_cells, pad):
             pos = rng.randint(1, len(cols) - 1)
             cols = cols[:pos] + [None] * k + cols[pos:]
         grid = [cols]
-        for r in rows:
+        for ri, r in enumerate(rows):
+            if interior_gap and sheet in ("survey", "choices") and ri == len(rows) // 2 and ri > 0:
+                grid += [[None] * len(cols) for _ in range(interior_gap)]      # a run of empty rows INSIDE the data (the readers tolerate up to 60)
             grid.append([r.get(h) if h is not None else None for h in cols])
         if pad and rng.random() < 0.5:
             grid += [[None] * len(cols) for _ in range(rng.choice([1, 5, 60, 70]))]
@@ -263,7 +266,9 @@ def convert_xls_fake(gr, typed_cells, **kw):
         be.xlrd_open = orig
 
 
-def result_key(r):
+def result_key(r, rows_shifted=False):
+    if rows_shifted:
+        return (r.xform, tuple(re.sub(r"\[row : \d+\]", "[row : ?]", w) for w in r.warnings), r.itemsets)
     return (r.xform, tuple(r.warnings), r.itemsets)
 
 
@@ -300,7 +305,8 @@ def _check(args):
             multiline = True
     typed_cells = rng.random() < 0.6
     pad = rng.random() < 0.6
-    gr = grids(form, rng, typed_cells, pad)
+    interior_gap = rng_for(seed, PID, "gap", i).choice([1, 30, 59, 60]) if i % 5 == 2 else 0
+    gr = grids(form, rng, typed_cells, pad, interior_gap)
     def base_of(f):
         try:
             return convert(copy.deepcopy(forms.as_dict(f)))
@@ -340,14 +346,14 @@ def _check(args):
         for name, fn in chosen:
             try:
                 r = fn()
-                got = result_key(r)
+                got = result_key(r, bool(interior_gap))
             except PyXFormError as e:
                 got = ("pyxerr", str(e))
             except Exception as e:
                 return {"i": i, "form": form, "what": f"{name}: crashed with {e!r} while the dict input gives {'a result' if not isinstance(base, tuple) else base}",
                         "variant": name}
             b = base_grid if name.startswith(("xls", "xlsx", "xlsm")) else base
-            want = result_key(b) if not isinstance(b, tuple) else b
+            want = result_key(b, bool(interior_gap)) if not isinstance(b, tuple) else b
             if isinstance(want, tuple) and want and want[0] == "pyxerr":
                 if not (isinstance(got, tuple) and got and got[0] == "pyxerr"):
                     return {"i": i, "form": form, "what": f"{name}: converts while the dict input is rejected ({want[1][:100]})", "variant": name}
